@@ -3,22 +3,22 @@
    Print Assumptions follows every theorem.  matching_terms f t doc = the input terms of doc in field f with bytes t, in input order; implied_freq / implied_locs / implied_norm are their summed frequency, concatenated resolved locations and the norm of the summed field length. *)
 
 From Coq Require Import List NArith Bool Sorting Permutation.
-From Ice Require Import Base Spec.
-From IceProofs Require Build_Proofs Sort_Proofs.
+From Ice Require Import Base Spec Varint Chunk Postings IntCoder.
+From IceProofs Require Build_Proofs Sort_Proofs IntCoder_Proofs.
 Import ListNotations.
 Open Scope N_scope.
 
 (* documents are numbered 0..n-1 *)
 Theorem build_count :
     forall (norm : bytes -> N -> N) (b : Batch), o_count (abs_of_batch norm b) = lenN b.
-Proof. exact Build_Proofs.build_count. Qed.
+Proof. exact @Build_Proofs.build_count. Qed.
 Print Assumptions build_count.
 
 (* the field list is _id followed by the remaining field names in sorted order *)
 Theorem build_fields :
     forall (norm : bytes -> N -> N) (b : Batch),
     o_fields (abs_of_batch norm b) = field_list (batch_field_names b).
-Proof. exact Build_Proofs.build_fields. Qed.
+Proof. exact @Build_Proofs.build_fields. Qed.
 Print Assumptions build_fields.
 
 (* no field the batch does not imply *)
@@ -26,7 +26,7 @@ Theorem build_fields_In :
     forall (norm : bytes -> N -> N) (b : Batch) (f : bytes),
     In f (o_fields (abs_of_batch norm b)) <->
     f = id_name \/ (exists (d : Doc) (fld : Field), In d b /\ In fld d /\ f_name fld = f).
-Proof. exact Build_Proofs.build_fields_In. Qed.
+Proof. exact @Build_Proofs.build_fields_In. Qed.
 Print Assumptions build_fields_In.
 
 (* for every field and term: exactly the documents containing the term, each with the summed frequency, the norm of the field's total length and the locations in input order with their field names *)
@@ -42,14 +42,14 @@ Theorem build_postings :
     (Build_Proofs.implied_freq f t doc,
     (Build_Proofs.implied_norm norm f doc, Build_Proofs.implied_locs f t doc)))]
     end) (number_from 0 b).
-Proof. exact Build_Proofs.build_postings. Qed.
+Proof. exact @Build_Proofs.build_postings. Qed.
 Print Assumptions build_postings.
 
 (* in ascending document order *)
 Theorem build_postings_ascending :
     forall (norm : bytes -> N -> N) (b : Batch) (f t : bytes),
     StronglySorted (fun p q : APosting => fst p < fst q) (o_postings (abs_of_batch norm b) f t).
-Proof. exact Build_Proofs.build_postings_ascending. Qed.
+Proof. exact @Build_Proofs.build_postings_ascending. Qed.
 Print Assumptions build_postings_ascending.
 
 (* no term the batch does not imply *)
@@ -57,13 +57,13 @@ Theorem build_terms :
     forall (norm : bytes -> N -> N) (b : Batch) (f t : bytes),
     In t (o_terms (abs_of_batch norm b) f) <->
     (exists doc : Doc, In doc b /\ Build_Proofs.matching_terms f t doc <> []).
-Proof. exact Build_Proofs.build_terms. Qed.
+Proof. exact @Build_Proofs.build_terms. Qed.
 Print Assumptions build_terms.
 
 Theorem build_terms_sorted :
     forall (norm : bytes -> N -> N) (b : Batch) (f : bytes),
     Sort_Proofs.strict_sorted_bytes (o_terms (abs_of_batch norm b) f).
-Proof. exact Build_Proofs.build_terms_sorted. Qed.
+Proof. exact @Build_Proofs.build_terms_sorted. Qed.
 Print Assumptions build_terms_sorted.
 
 (* the per-document roll-up of a repeated field: frequencies summed, locations concatenated in input order *)
@@ -77,27 +77,110 @@ Theorem roll_up_lookup :
     Some
     (t, (sumN (map t_freq ms), flat_map' (fun tm : Term => map (resolve_loc fname) (t_locs tm)) ms))
     end.
-Proof. exact Build_Proofs.roll_up_lookup. Qed.
+Proof. exact @Build_Proofs.roll_up_lookup. Qed.
 Print Assumptions roll_up_lookup.
 
 Theorem roll_up_keys_sorted :
     forall (fname : bytes) (insts : list Field),
     Sort_Proofs.strict_sorted_bytes (map fst (roll_up fname insts)).
-Proof. exact Build_Proofs.roll_up_keys_sorted. Qed.
+Proof. exact @Build_Proofs.roll_up_keys_sorted. Qed.
 Print Assumptions roll_up_keys_sorted.
 
 Theorem build_stored :
     forall (norm : bytes -> N -> N) (b : Batch) (n : nat) (doc : Doc),
     nth_error b n = Some doc ->
     o_stored (abs_of_batch norm b) (N.of_nat n) = abs_stored (field_list (batch_field_names b)) doc.
-Proof. exact Build_Proofs.build_stored. Qed.
+Proof. exact @Build_Proofs.build_stored. Qed.
 Print Assumptions build_stored.
 
 Theorem build_stored_out_of_range :
     forall (norm : bytes -> N -> N) (b : Batch) (n : N),
     lenN b <= n -> o_stored (abs_of_batch norm b) n = [].
-Proof. exact Build_Proofs.build_stored_out_of_range. Qed.
+Proof. exact @Build_Proofs.build_stored_out_of_range. Qed.
 Print Assumptions build_stored_out_of_range.
+
+(* the writer algorithm (chunkedIntCoder: SetChunkSize, Add with the current-chunk test, Close): chunk k of what it writes decompresses to exactly the entries of the postings whose document falls into chunk k, for every zstd satisfying the three laws *)
+Theorem coder_chunks :
+    forall zc zd : bytes -> bytes,
+    (forall b : bytes, zd (zc b) = b) ->
+    zc [] = [] ->
+    (forall b : list N, b <> [] -> zc b <> []) ->
+    forall (cs m : N) (es : list IntCoder_Proofs.entry) (rest : bytes),
+    0 < cs ->
+    m / cs + 1 < two64 ->
+    StronglySorted IntCoder_Proofs.le_doc es ->
+    Forall (fun e : N * list N => fst e <= m) es ->
+    exists c : coder,
+    run_term zc cs m es = Ok c /\
+    length (co_chunkLens c) = N.to_nat (m / cs + 1) /\
+    (forall k : nat,
+    (k < N.to_nat (m / cs + 1))%nat ->
+    decoder_chunk zd (modify_lengths_to_end_offsets (co_chunkLens c)) (co_final c ++ rest) k =
+    Ok
+    (flat_map' (fun e : N * list N => if fst e / cs =? N.of_nat k then put_uvarints (snd e) else [])
+    es)).
+Proof. exact @IntCoder_Proofs.coder_chunks. Qed.
+Print Assumptions coder_chunks.
+
+(* feeding a postings list to the freq/norm and location coders as new.go and merge.go do yields exactly the encoding encode_gen that the iterator theorem is about *)
+Theorem writer_encodes_gen :
+    forall zc zd : bytes -> bytes,
+    (forall b : bytes, zd (zc b) = b) ->
+    zc [] = [] ->
+    (forall b : list N, b <> [] -> zc b <> []) ->
+    forall (cs m : N) (ps : list EPosting),
+    0 < cs ->
+    m / cs + 1 < two64 ->
+    StronglySorted IntCoder_Proofs.le_pdoc ps ->
+    Forall (fun p : EPosting => ep_doc p <= m) ps ->
+    exists cf cl : coder,
+    run_term zc cs m (freq_adds ps) = Ok cf /\
+    run_term zc cs m (loc_adds ps) = Ok cl /\
+    IntCoder_Proofs.read_back zd cs (map ep_doc ps) cf cl = encode_gen cs (N.to_nat (m / cs + 1)) ps.
+Proof. exact @IntCoder_Proofs.writer_encodes_gen. Qed.
+Print Assumptions writer_encodes_gen.
+
+(* end to end: what the coders write, read back through the iterator model, is the specification's answer *)
+Theorem written_postings_iterate :
+    forall zc zd : bytes -> bytes,
+    (forall b : bytes, zd (zc b) = b) ->
+    zc [] = [] ->
+    (forall b : list N, b <> [] -> zc b <> []) ->
+    forall (fields : list bytes) (ps : list EPosting) (cs m : N) (except : option (list N))
+    (inclFN inclLocs : bool) (old : option It) (ops : list iter_op),
+    Iterator_Proofs.wf_postings (length fields) ps ->
+    0 < cs ->
+    m / cs + 1 < two64 ->
+    Forall (fun p : EPosting => ep_doc p <= m) ps ->
+    (inclLocs = true -> inclFN = true) ->
+    Iterator_Proofs.wf_ops ops ->
+    exists cf cl : coder,
+    run_term zc cs m (freq_adds ps) = Ok cf /\
+    run_term zc cs m (loc_adds ps) = Ok cl /\
+    it_run
+    (it_init (IntCoder_Proofs.read_back zd cs (map ep_doc ps) cf cl) except inclFN inclLocs fields old)
+    ops =
+    Ok
+    (Iterator_Proofs.spec_out inclFN inclLocs
+    (filter (fun p : N * (N * (N * list ALoc)) => Iterator_Proofs.live_opt except (fst p))
+    (map (Iterator_Proofs.resolve_posting fields) ps)) ops).
+Proof. exact @IntCoder_Proofs.written_postings_iterate. Qed.
+Print Assumptions written_postings_iterate.
+
+(* the location coder is empty (termNotEncoded) exactly when no posting has locations *)
+Theorem finalSize_zero_iff :
+    forall zc zd : bytes -> bytes,
+    (forall b : bytes, zd (zc b) = b) ->
+    zc [] = [] ->
+    (forall b : list N, b <> [] -> zc b <> []) ->
+    forall (cs m : N) (es : list IntCoder_Proofs.entry) (c : coder),
+    0 < cs ->
+    m / cs + 1 < two64 ->
+    StronglySorted IntCoder_Proofs.le_doc es ->
+    Forall (fun e : N * list N => fst e <= m) es ->
+    run_term zc cs m es = Ok c -> coder_finalSize c = 0 <-> Forall (fun e : N * list N => snd e = []) es.
+Proof. exact @IntCoder_Proofs.finalSize_zero_iff. Qed.
+Print Assumptions finalSize_zero_iff.
 
 (* non-vacuity: repeated field, shared term, a location naming another field *)
 Example build_postings_example :
@@ -113,5 +196,5 @@ Example build_postings_example :
     o_fields (abs_of_batch Build_Proofs.ex_norm Build_Proofs.ex_batch) =
     [id_name; Build_Proofs.ex_body; Build_Proofs.ex_title] /\
     o_stats (abs_of_batch Build_Proofs.ex_norm Build_Proofs.ex_batch) Build_Proofs.ex_title = (2, (2, 7)).
-Proof. exact Build_Proofs.build_postings_example. Qed.
+Proof. exact @Build_Proofs.build_postings_example. Qed.
 Print Assumptions build_postings_example.
